@@ -218,6 +218,16 @@ pub fn consume_rules(pairs: Pairs<'_, Rule>) -> Result<Vec<AstRule>, Vec<Error<R
     }
 }
 
+/// Verification hook: converts a parser's result to an AST without running the validator
+/// (feature `verif-hooks`).
+#[cfg(feature = "verif-hooks")]
+pub fn verif_consume_rules_unvalidated(
+    pairs: Pairs<'_, Rule>,
+) -> Result<Vec<AstRule>, Vec<Error<Rule>>> {
+    let rules = consume_rules_with_spans(pairs)?;
+    Ok(rules.into_iter().map(convert_rule).collect())
+}
+
 /// A helper function to rename verbose rules
 /// for the sake of better error messages
 #[inline]
